@@ -251,6 +251,50 @@ def shape_violations(name, cfg_in, out):
     return bad
 
 
+def almost_cnf(ctx, case, out, rng):
+    """The normal-form predicate on grammars that are in CNF except for ONE rule (the cnf output plus one offending
+    rule): in_cnf() must agree with the independent shape predicate, i.e. say False."""
+    from genlm.grammar import CFG
+
+    heads = sorted({r.head for r in out.rules}, key=repr)
+    V = sorted(out.V, key=repr)
+    if not heads or not V:
+        return
+    A, B = rng.choice(heads), rng.choice(heads)
+    a = rng.choice(V)
+    w = out.rules[0].w
+    extras = {
+        "unary-to-a-nonterminal-without-rules": (A, (("undefined", "nonterminal"),)),
+        "unary-to-a-nonterminal": (A, (B,)),
+        "two-terminals": (A, (a, a)),
+        "terminal-in-binary-rule": (A, (B, a)),
+        "three-symbols": (A, (B, B, B)),
+        "start-on-a-right-hand-side": (A, (B, out.S)),
+    }
+    if A != out.S:
+        extras["empty-rule-off-start"] = (A, ())
+    kind = rng.choice(sorted(extras))
+    head, body = extras[kind]
+    c2 = dict(case, transformation="in_cnf", almost_cnf=kind)
+
+    def build():
+        g = CFG(R=out.R, S=out.S, V=set(out.V))
+        for r in out.rules:
+            g.add(r.w, r.head, *r.body)
+        g.add(w, head, *body)
+        return g
+
+    ok, g = ctx.call("cfg.cnf", c2, build, mech_prefix="in_cnf")
+    if not ok:
+        return
+    ok, verdict = ctx.call("cfg.cnf", c2, g.in_cnf, mech_prefix="in_cnf")
+    if ok:
+        ctx.shape["in_cnf:almost-cnf"] += 1
+        indep = not shape_violations("cnf", g, g)
+        ctx.check("cfg.cnf", bool(verdict) == indep, "in_cnf/disagrees-with-shape-predicate", c2,
+                  {"in_cnf": bool(verdict), "independent_predicate": indep, "offending_rule": [repr(head), [repr(y) for y in body]], "kind": kind})
+
+
 def check_has_unary_cycle(ctx, case, cfg, where):
     """The library's own cycle predicate (SCC buckets of the unary graph) against the DFS predicate."""
     cyc, ncancel, edges = unary_cycle_info(cfg)
@@ -338,6 +382,8 @@ def run_case(case, ctx, mode):
                 okc, v2 = ctx.call(api, c2, out.in_cnf, mech_prefix="in_cnf")
                 if okc and not v2:
                     bad = [("in_cnf/rejects-cnf-output", {})]
+                elif okc and out.rules:
+                    almost_cnf(ctx, c2, out, rng)
             if bad:
                 for mech, detail in bad:
                     ctx.violated(api, mech, c2, dict(detail, transformation=name, out_rules=[[r.w, r.head, list(r.body)] for r in out.rules][:30]))
